@@ -264,6 +264,10 @@ pub fn gen_adversarial(r: &mut Rng, thorough: bool, out: &mut Vec<String>) {
             let m = gen_msg(r, &s, i, bt, 3);
             let mut b = BytesMut::new();
             m.encode_raw(&mut b);
+            // group::merge on corrupted group bodies (wrong end tag, missing end, nested)
+            { let tag = 1 + r.below(40) as u32; let mut g = b.to_vec(); put_key(if r.chance(1, 4) { tag + 1 } else { tag }, 4, &mut g);
+              out.push(format!("pbgrpdec {} {} {} {} {}", fl, s.sexp(), i, tag, hex(&g)));
+              for mu in mutations(r, &g, false).into_iter().take(n(6, 60)) { out.push(format!("pbgrpdec {} {} {} {} {}", fl, s.sexp(), i, tag, hex(&mu))); } }
             for mu in mutations(r, &b, thorough).into_iter().take(n(40, 600)) {
                 match r.below(6) { 0 => out.push(format!("pbdld {} {} {} {}", fl, s.sexp(), i, hex(&mu))), 1 => out.push(format!("pbmrg {} {} {} {} {}", fl, s.sexp(), i, m_sexp(&m), hex(&mu))), _ => out.push(format!("pbdec {} {} {} {}", fl, s.sexp(), i, hex(&mu))) }
             }
